@@ -36,7 +36,7 @@ let parse_shape (t : string) : shape =
   let p = ref 0 in
   let token () =
     let q = ref !p in
-    while !q < String.length t && not (List.mem t.[!q] [';'; ']'; '}'; '='; '>'; '|'; ')']) do incr q done;
+    while !q < String.length t && not (List.mem t.[!q] [';'; ']'; '}'; '='; '>'; '|'; ')'; '$']) do incr q done;
     let r = String.sub t !p (!q - !p) in p := !q; r in
   let rec go () : shape =
     let c = t.[!p] in incr p;
@@ -50,6 +50,18 @@ let parse_shape (t : string) : shape =
     | 'b' -> ignore (token ()); SBytes
     | '[' -> let e = go () in if t.[!p] <> ']' then failwith "a vector shape holds one element shape"; incr p; SVec e
     | 'v' -> SVecBool
+    | '^' ->
+      if t.[!p] = '$' then (incr p; STuple []) else begin
+        let ss = ref [] in
+        let fin = ref false in
+        while not !fin do
+          let s = go () in
+          ss := s :: !ss;
+          if t.[!p] = ';' then incr p else if t.[!p] = '$' then (incr p; fin := true) else failwith "bad tuple shape"
+        done;
+        if List.length !ss > 4 then failwith "tuples of up to 4 components";
+        STuple (List.rev !ss)
+      end
     | '(' ->
       let cnt = int_of_string (token ()) in
       if cnt > 4096 || t.[!p] <> '|' then failwith "bad array shape";
